@@ -49,3 +49,35 @@ Print Assumptions C04_radial_profile_derivative.
 
 Example C04_example : gweight 2 1 (1/10) 0 = 0 /\ basis 1 3 = [0; 1; 0].
 Proof. split; [apply gweight_coincident; lra|reflexivity]. Qed.
+
+(* ---------- the autodiff kernels: what is handed to torch.func.jacrev ---------- *)
+Require Import XV.Real.GradOps.
+(* The closures of the product / Lpq / sum-power kernels (re-translated from the source on every run, harness/gradops.py) compute, for every
+   center and query point whose eps-mask is open, exactly the documented kernel of C05; where the mask is closed they are constant (so the
+   center's own term has zero gradient).  jacrev's result is therefore the gradient of the documented predictor — the PyTorch contract that
+   jacrev returns the Jacobian is checked numerically per instance. *)
+Theorem C04_product_closure_is_the_documented_kernel : forall t L q eps x z, 0 < L -> 0 < q -> length x = length z -> wf_tmat t (length x) ->
+  eps <= sum_abs_pow q (transform t (vsubR x z)) -> fwd_product t L q eps x z = closed_product t L q x z.
+Proof. exact fwd_product_open. Qed.
+Theorem C04_product_closure_masked_is_constant : forall t L q eps x z, 0 < q ->
+  sum_abs_pow q (vsubR (transform t x) (transform t z)) < eps -> fwd_product t L q eps x z = 1.
+Proof. exact fwd_product_masked. Qed.
+Theorem C04_lpq_closure_is_the_documented_kernel : forall t L p q eps x z, 0 < L -> 0 < eps -> length x = length z -> wf_tmat t (length x) ->
+  eps <= normp p (transform t (vsubR x z)) -> fwd_lpq t L p q eps x z = closed_lpq t L p q x z.
+Proof. exact fwd_lpq_open. Qed.
+Theorem C04_lpq_closure_masked_is_constant : forall t L p q eps x z,
+  cdistp p (transform t x) (transform t z) < eps -> fwd_lpq t L p q eps x z = 1.
+Proof. exact fwd_lpq_masked. Qed.
+Theorem C04_sum_power_closure_is_the_documented_kernel : forall t L q c power x z, length x = length z -> wf_tmat t (length x) ->
+  length (transform t x) = length (transform t z) -> length (transform t x) = length x ->
+  fwd_sum_power t L q c power x z = closed_sum_power t L q c power x z.
+Proof. exact fwd_sum_power_closed. Qed.
+Print Assumptions C04_product_closure_is_the_documented_kernel.
+Print Assumptions C04_lpq_closure_is_the_documented_kernel.
+Print Assumptions C04_sum_power_closure_is_the_documented_kernel.
+
+(* the closed-form gradients as the generic einsum-pair sum the translator targets *)
+Theorem C04_l2_gradient_as_einsum_pair : forall t L q eps xs cs z, grad_l2 t L q eps xs cs z =
+  transform t (gsum_w (fun x => gweight L q eps (cdist2 (transform t x) (transform t z))) (transform t) (transform t z) xs cs).
+Proof. exact grad_l2_as_gsum_w. Qed.
+Print Assumptions C04_l2_gradient_as_einsum_pair.
